@@ -597,6 +597,20 @@ def run(ctx):
         bad = a0 is not None and "_ser_cache" in src(a0) or (a0 is not None and any(isinstance(x, ast.Call) and (ap(x.func) or "").endswith("deserialize_var") for x in ast.walk(a0)))
         ctx.ob("C13.R3", f"caller passes the raw payload: {norm(c)}", not bad, f"{OBJ}:{c.lineno}",
                "the normaliser must decode the payload bytes itself (fast reader), not reuse a deserialised template value")
+    # the three wire components of a packed rotation are kept exactly as read (W is derived, X/Y/Z never recomputed)
+    qc = repo.cls("Quaternion", "hippolyzer/lib/base/datatypes.py")
+    qi = qc.methods.get("__init__")
+    ctx.require(qi is not None, "datatypes.Quaternion.__init__ vanished")
+    qparams = [a.arg for a in qi.node.args.args if a.arg != "self"][:3]
+    from ..core import stores as _st2
+    for comp in qparams:
+        sts = [x for x in _st2(qi.node, into_defs=False) if x.path in (f"self.{comp}", comp)]
+        ok = len(sts) == 1 and sts[0].path == f"self.{comp}" and sts[0].value is not None and \
+            (ap(sts[0].value) == comp or (isinstance(sts[0].value, ast.Call) and ap(sts[0].value.func) == "float"
+                                          and len(sts[0].value.args) == 1 and ap(sts[0].value.args[0]) == comp))
+        ctx.ob("C13.R2", f"Quaternion.__init__ stores component {comp} exactly as given", ok, qi.where,
+               f"{[norm(x.node) for x in sts]}: both decoders build rotations through this constructor; recomputing a wire "
+               f"component changes the re-encoded payload")
     # endianness
     base = repo.cls("BaseSubfieldSerializer", SER)
     e_node = repo.class_attr(tci, "ENDIANNESS")
